@@ -303,3 +303,7 @@ impl From<Dimension> for CssDimension {
         }
     }
 }
+
+#[cfg(kani)]
+#[path = "/verif/kani/unit.rs"]
+pub(super) mod kani_verif;
